@@ -601,6 +601,9 @@ fn run(ctx: &RunCtx) -> Result<(), Violation> {
     let spec = wgen::gen_scheme(&[8, 4, 6, 6, 0, 0, 2, 1], chance(1, 2, "with_lists"), false);
     let scheme = spec.build();
     let twin = spec.build();
+    for sch in [&scheme, &twin] {
+        spec.verify_shape(sch).map_err(|e| v("scheme-shape", "", e))?;
+    }
     let seed_model = wgen::gen_model_ctx(&spec, 3, false);
     let probes = gen_probes(&spec, &scheme, &[&seed_model], 4);
     // the same texts parsed with the twin
